@@ -218,8 +218,10 @@ def _decorator_kind(decos):
 class Program:
     """All modules of the package under ``repo``."""
 
-    def __init__(self, repo):
+    def __init__(self, repo, inline=True):
         self.repo = os.path.abspath(repo)
+        self.inline = inline
+        self.inlined = {}
         self.modules = {}  # relpath -> Module
         self.by_dotted = {}
         self.classes = {}  # name -> Class (class names are unique in the package)
@@ -245,6 +247,11 @@ class Program:
                     mod = Module(rel, src)
                 except SyntaxError as exc:
                     raise AnalysisError("%s does not parse: %s" % (rel, exc))
+                if self.inline:
+                    from .inline import inline_module
+                    n, names = inline_module(mod.tree)
+                    if n:
+                        self.inlined[rel] = {"call_sites": n, "helpers": names}
                 self.modules[rel] = mod
                 self.by_dotted[mod.dotted] = mod
 
